@@ -454,3 +454,39 @@ def final_aggs(P, body, adt_suffix):
             continue
         out.append(a)
     return out or aggs
+
+
+
+def bit_width(t, depth=0):
+    """an upper bound on the number of significant bits of an unsigned integer term (32 when nothing is known)"""
+    from .prov import norm
+    t = norm(t)
+    if depth > 10:
+        return 32
+    if t[0] == "const":
+        return max(1, int(t[1]).bit_length()) if isinstance(t[1], int) and not isinstance(t[1], bool) and t[1] >= 0 else 32
+    if t[0] == "cast":
+        inner = bit_width(t[3], depth + 1)
+        src = str(t[1]) if len(t) > 1 else ""
+        for name, w in (("u8", 8), ("u16", 16), ("bool", 1)):
+            if src == name:
+                inner = min(inner, w)
+        return inner
+    if t[0] == "index":
+        return 8        # an octet of a byte buffer
+    if t[0] == "bin":
+        a, c = bit_width(t[2], depth + 1), bit_width(t[3], depth + 1)
+        if t[1].startswith("Shl"):
+            k = const_value(t[3])
+            return min(32, a + k) if k is not None else 32
+        if t[1] in ("BitOr", "BitXor"):
+            return max(a, c)
+        if t[1] == "BitAnd":
+            return min(a, c)
+        if t[1].startswith("Shr"):
+            k = const_value(t[3])
+            return max(0, a - k) if k is not None else a
+        return 32
+    if t[0] == "field" and norm(t[1])[0] == "bin":
+        return bit_width(t[1], depth + 1)
+    return 32
